@@ -276,7 +276,7 @@ def r6(ctx):
     from . import c08, c09
     # (who else is refilled, and when repopulation must *not* run, is C08's / C09's business)
     ctx.sub(c08.r2, only=("recipient:covers", "recipient:ids", "recipient:loop"))
-    ctx.sub(c09.r2, only=("order:repopulate<statistics", "thread:->statistics", "covers:repopulate"))
+    c09.lifecycle(ctx, {"refill-before-fit"})     # along every cyclic path, not just inside one round
 
 
 @rule("C03", "R7", "FLOW", "aggregates over an empty cluster are guarded (no NaN mean / median in the result)")
